@@ -46,6 +46,10 @@ def plan(tier, seed):
             if o.get('saliency') == 'zeros':
                 o['saliency'] = 'pos'
             iters = int(pick([1, 2, 3, 5, 8])) if kind != 'cbmm' else int(pick([1, 2, 3]))
+            if kind == 'cbmm' and r % 2 == 0:
+                # the few Bingham mixture cases: every second one with a clipping constant that is visible against the (loose) Bingham tolerance,
+                # a start that saturates posteriors, and at least one E-step inside the loop
+                o['affiliation_eps'] = float(pick([1e-3, 0.02])); iters = int(pick([2, 3]))
             cases.append(dict(lane='trace', kind=kind, cls=pick(['gauss', 'gauss', 'dup', 'ragged']), K=K, N=N, D=D, lead=lead, layout=pick(['c', 'c', 'f', 'tview']),
                               offset=float(pick([0, 0, 1e4, 1e6])) if kind in ('gmm', 'gcacgmm') else 0.0,
                               init=pick(['dirichlet:1', 'dirichlet:0.3', 'blur:0.3', 'onehot', 'onehot:bool', 'onehot:int']), iters=iters, opts=o, rs=[seed, 9, i]))
